@@ -104,6 +104,111 @@ func body(w *run.Worker) {
 	ctx := context.Background()
 	w.Cases("seq", w.N(360, 12000), func(c *run.Case) { seqCase(ctx, w, c) })
 	w.Cases("conc", w.N(240, 6000), func(c *run.Case) { concCase(ctx, w, c) })
+	adjacent(ctx, w)
+}
+
+// adjacent: three uploads allocated back to back in one block (so that
+// neighbours share their first/last sector), each parked inside its unlocked
+// copy phase, completed in every order; all three must read back exactly.
+// Thorough: every size triple in [0, 3 sectors]^3 x all 6 completion orders
+// for sector size 4 (exhaustive); quick: a PRNG sample of the same space.
+func adjacent(ctx context.Context, w *run.Worker) {
+	const S = 4
+	type tc struct{ a, b, c, order int }
+	var all []tc
+	for a := 0; a <= 3*S; a++ {
+		for b := 0; b <= 3*S; b++ {
+			for cc := 0; cc <= 3*S; cc++ {
+				for o := 0; o < 6; o++ {
+					all = append(all, tc{a, b, cc, o})
+				}
+			}
+		}
+	}
+	perms := [6][3]int{{0, 1, 2}, {0, 2, 1}, {1, 0, 2}, {1, 2, 0}, {2, 0, 1}, {2, 1, 0}}
+	var mine []tc
+	if w.Thorough() {
+		for i, t := range all {
+			if i%w.Workers == w.Index {
+				mine = append(mine, t)
+			}
+		}
+	} else {
+		r := gen.New(w.Seed, uint64(w.Index), 0xad1)
+		for i := 0; i < 600/w.Workers+1; i++ {
+			mine = append(mine, all[r.Intn(len(all))])
+		}
+	}
+	w.Cases("adjacent", len(mine), func(c *run.Case) {
+		t := mine[c.Index]
+		c.Desc("adjacent sizes=%d,%d,%d order=%v", t.a, t.b, t.c, perms[t.order])
+		cfg := asm.Config{Sector: S, BlockSectors: 16, Old: 1, Cur: 1, New: 1, Spare: 1, Records: 97, GetAttempts: 8, PutAttempts: 16, KeyFormat: digest.KeyWithoutInstance, Factory: "raw", Label: "c01"}
+		s, err := asm.Build(cfg, asm.NewMedia(cfg))
+		if err != nil {
+			panic(err)
+		}
+		sizes := [3]int{t.a, t.b, t.c}
+		type up struct {
+			d    digest.Digest
+			data []byte
+			gate chan struct{}
+			done chan error
+		}
+		var ups [3]*up
+		for i := 0; i < 3; i++ {
+			data := gen.UniqueBlob(uint64(c.Index)<<8|uint64(i), uint64(w.Index)<<32|uint64(t.order), sizes[i])
+			// make contents distinct even for tiny sizes
+			for j := range data {
+				data[j] = byte(0x10*(i+1) + j)
+			}
+			u := &up{d: gen.SHA256Digest("", append([]byte{byte(i)}, data...)), data: data, gate: make(chan struct{}), done: make(chan error, 1)}
+			ups[i] = u
+			arrived := make(chan struct{}, 1)
+			n := 0
+			src := &asm.Upload{Data: data, Yield: func() {
+				n++
+				if n == 1 { // first read of the copy phase: space has been allocated
+					arrived <- struct{}{}
+					<-u.gate
+				}
+			}}
+			go func() { u.done <- s.BA.Put(ctx, u.d, src.PlainBuffer()) }()
+			select {
+			case <-arrived: // allocation of upload i happened before upload i+1 starts
+			case err := <-u.done: // an empty object is copied without reading the source
+				u.done <- err
+			}
+		}
+		for _, i := range perms[t.order] {
+			close(ups[i].gate)
+			if err := <-ups[i].done; err != nil {
+				c.Violation("localstore.Put:good-upload-refused", "adjacent upload %d failed: %v", i, err)
+			}
+			// everything completed so far must read back exactly
+			for _, j := range perms[t.order] {
+				got, err := asm.GetBytes(ctx, s.BA, ups[j].d)
+				if err == nil && string(got) != string(ups[j].data) {
+					c.Violation("localstore.Get:wrong-bytes-adjacent-uploads", "after completing upload %d, upload %d (size %d) reads back %x, want %x (sizes %v, completion order %v)", i, j, sizes[j], got, ups[j].data, sizes, perms[t.order])
+				}
+				if j == i {
+					break
+				}
+			}
+		}
+		for i := 0; i < 3; i++ {
+			got, err := asm.GetBytes(ctx, s.BA, ups[i].d)
+			if err != nil {
+				c.Violation("localstore.Get:adjacent-upload-lost", "upload %d is not readable: %v", i, err)
+			} else if string(got) != string(ups[i].data) {
+				c.Violation("localstore.Get:wrong-bytes-adjacent-uploads", "upload %d (size %d) reads back %x, want %x (sizes %v, completion order %v)", i, sizes[i], got, ups[i].data, sizes, perms[t.order])
+			}
+		}
+		w.Count("adjacent_triples", 1)
+		w.Distinct(fmt.Sprintf("adj|%d|%d|%d|%d", t.a, t.b, t.c, t.order))
+	})
+	if w.Thorough() {
+		w.Exhaustive("adjacent size triples <= 3 sectors x completion orders (sector 4)", true)
+	}
 }
 
 func mkStore(c *run.Case, r *gen.Rng) (*asm.Store, asm.Config) {
